@@ -69,6 +69,12 @@ REQUIRED_CALLS = [
     "libmcider.contract_shl_to_alpha_l1", "libmcider.contract_shl_to_alpha_l1_bwd",
 ]
 
+# Worker environment (the runner copies os.environ when it spawns workers; wall-clock is never a verdict, this only
+# keeps the 16-thread cases affordable): the OpenMP regions of libmcider call BLAS per thread, so BLAS itself stays
+# single-threaded (no nested 16 x 16 oversubscription), and idle OpenMP threads sleep instead of spinning.
+os.environ.setdefault("OPENBLAS_NUM_THREADS", "1")
+os.environ.setdefault("OMP_WAIT_POLICY", "PASSIVE")
+
 TOL = 1e-12
 NOISE_FACTOR = 100.0
 PROBE_SCALES = (1.1, 0.7, 1.3, 0.9)
@@ -594,8 +600,10 @@ def _run_generator(ctx, g, w_grid, cfgtag, nrep, light=False):
             _test_rad2orb(ctx, itp.l1atco, "l1atco", ind, 3 * itp._n1, 2)
     _test_multiply(ctx, ccl, vtag, nrep)
     _test_interpolator(ctx, itp, itag, nrep)
-    _test_plan_transform(ctx, plan, ptag, plan.coef_order, 2 if light else 4, strided_nextra=ccl.num_out - nal)
-    _test_composite(ctx, g, _ygrid_rows(itp), ind.all_weights, w_grid, "%s,%s" % (vtag, ptag), max(4, nrep))
+    _test_plan_transform(ctx, plan, ptag, plan.coef_order, 2 if light else 4, strided_nextra=max(0, ccl.num_out - nal))
+    # Gaussian plans with a dense exponent ladder are noise-limited (see module docstring): fewer, probed draws there
+    ncomp = 4 if (ptag == "gaussian" and float(plan.lambd) < 1.9 and ver != "k") else max(4, nrep)
+    _test_composite(ctx, g, _ygrid_rows(itp), ind.all_weights, w_grid, "%s,%s" % (vtag, ptag), ncomp)
 
 
 def _run_nldf(case, rec, rng):
@@ -606,7 +614,7 @@ def _run_nldf(case, rec, rng):
     rec.tag("ngrids", int(grids.coords.shape[0]))
     ctx = _Ctx(rec, rng)
     big = NATM[cfg["mol"]] * (cfg["lmax"] + 1) ** 2 * (1 + cfg["level"]) > 500
-    nrep = 4 if big else 8
+    nrep = 4 if big else 6
     _run_generator(ctx, g, grids.weights, {"interp": cfg["interp"], "plan": cfg["plan"]}, nrep)
     _finish(ctx, cfg)
 
